@@ -403,12 +403,15 @@ func (s *MemoryStore) RevokeRefreshToken(ctx context.Context, requestID string) 
 }
 
 func (s *MemoryStore) RevokeAccessToken(ctx context.Context, requestID string) error {
-	s.accessTokenRequestIDsMutex.RLock()
-	defer s.accessTokenRequestIDsMutex.RUnlock()
+	// A request ID can have more than one access token (the OpenID Connect hybrid flow issues one at the
+	// authorization endpoint and another one when the code is exchanged). AccessTokenRequestIDs only
+	// remembers the most recent signature, so all access tokens of the request are looked up here.
+	s.accessTokensMutex.Lock()
+	defer s.accessTokensMutex.Unlock()
 
-	if signature, exists := s.AccessTokenRequestIDs[requestID]; exists {
-		if err := s.DeleteAccessTokenSession(ctx, signature); err != nil {
-			return err
+	for signature, req := range s.AccessTokens {
+		if req.GetID() == requestID {
+			delete(s.AccessTokens, signature)
 		}
 	}
 	return nil
